@@ -517,6 +517,7 @@ def run(ctx: RuleContext, p: Program) -> None:
         # a text assigned to a token-valued property survives print and re-parse: format/parse of the text-valued token classes agree
     ctx.try_rule(_c12.rule_tok_rt, p, _c12.grammar(p), 'TOK-RT')
     ctx.try_rule(_c12.rule_num_rt, p, _c12.grammar(p), 'NUM-RT')
+    ctx.try_rule(_c12.rule_esc_rt, p, _c12.grammar(p), 'ESC-RT')
     from . import viewlive as _vl
     ctx.try_rule(_vl.rule_store_edge, p, 'STORE-EDGE')
     ctx.not_decided += ['survival of values through print and re-parse', 'value domains of each token type (C12)',
